@@ -97,3 +97,26 @@ def _():
                           hyps + [z3.Exists([j], z3.And(0 <= j, j < n - 1, z3.Not(hsh(at(L, j)))))],
                           z3.ForAll([code], file_ignored(L2, code) == file_ignored(L, code)), "lemma", "lemma.add_ignores_step"))
     return obs
+
+
+@contract("pyanalyze.format_strings.maybe_replace_with_fstring", props=["C16"])
+def _(c):
+    c.param("fs", "obj:PercentFormatString")
+    c.param("args_node", "val")
+    c.returns("val")
+    c.fieldspec("specifiers", "seq[obj:ConversionSpecifier]")
+    c.fieldspec("raw_pieces", "seq")
+    c.fieldspec("pattern", "val")
+    c.fieldspec("elts", "seq")
+    for f in ("mapping_key", "conversion_flags", "field_width", "precision", "length_modifier", "conversion_type"):
+        c.fieldspec(f, "val")
+    c.callee("_is_simple_enough", lambda k: (k.param("n", "val"), k.returns("bool"), setattr(k, "functional", True), setattr(k, "fn_name", "_is_simple_enough")))
+    c.loop(0, invariant="True")
+    c.loop(1, invariant="True")
+    c.requires("len(fs.raw_pieces) >= 1", name="class_invariant.a_pattern_has_one_more_raw_piece_than_specifiers")
+    # an f-string rewrite `{x}` means str(x): it preserves the meaning only of bare %s / %d conversions
+    plain = ("all(not truthy(cs.mapping_key) and not truthy(cs.conversion_flags) and not truthy(cs.field_width) and not truthy(cs.precision) and not truthy(cs.length_modifier)"
+             " and cs.conversion_type in ('d', 's') for cs in fs.specifiers)")
+    c.ensures(f"implies(result is not None, {plain})", name="a_rewrite_is_proposed_only_for_bare_d_and_s_conversions")
+    c.ensures("implies(result is not None, not isinstance(fs.pattern, bytes))", name="never_for_bytes_patterns")
+    c.assume("semantic equivalence of the rewritten f-string itself (the JoinedStr built from the raw pieces) is covered by the bounded fix-apply-recheck check only")
